@@ -36,12 +36,18 @@ class BNReplayer:
             bn.weight.data = np.array([qf(q) for q in consts["Gamma"]], dtype=self.dtype)
             bn.bias.data = np.array([qf(q) for q in consts["Beta"]], dtype=self.dtype)
         tag = "bn:mom=%s,affine=%s,track=%s" % ("none" if mom is None else "ema", consts["Affine"], consts["Track"])
+        pend = []           # (input tensor, output tensor) of every forward, for later backward passes
         for i, call in enumerate(hist):
             a = call["a"]
             y = None
             try:
                 with repo.quiet():
-                    if a == "train":
+                    if a == "bwd":
+                        xk, yk = pend[call["k"] - 1]
+                        gk = np.array([(-(j + 1) if j % 2 == 0 else (j + 1)) for j in range(1, yk.data.size + 1)], dtype=self.dtype).reshape(yk.data.shape)
+                        xk.zero_()
+                        yk.backward(sg.Tensor(gk))
+                    elif a == "train":
                         bn.train()
                     elif a == "eval":
                         bn.eval()
@@ -50,9 +56,10 @@ class BNReplayer:
                         bn.running_var.data = np.array([qf(q) for q in call["rv"]], dtype=self.dtype)
                     elif a == "fwd":
                         b = consts["Batches"][call["b"] - 1]
-                        x = sg.Tensor(np.array(b["v"], dtype=self.dtype).reshape(tuple(b["shape"])))
+                        x = sg.Tensor(np.array(b["v"], dtype=self.dtype).reshape(tuple(b["shape"])), requires_grad=True)
                         snap = x.data.tobytes()
                         y = bn(x)
+                        pend.append((x, y))
                         if not bn.training:
                             y2 = bn(x)
                             if y2.data.tobytes() != y.data.tobytes():
@@ -82,15 +89,53 @@ class BNReplayer:
             else:
                 if bn.running_mean is not None or bn.running_var is not None:
                     div.append(("stats", tag + ":untracked-has-stats", "running statistics exist although track_running_stats=False"))
+            if a == "fwd" and y is not None and y.data.dtype != self.dtype:
+                div.append(("dtype", "%s:output-dtype:%s:%s" % (tag, mode, "after-training" if obs["nbt"] > 0 else "fresh"),
+                            "output dtype %s for %s input (history %s)" % (y.data.dtype, self.dtype, [c["a"] for c in hist[:i + 1]])))
+            if obs["rm"] and (bn.running_mean.data.dtype != self.dtype or bn.running_var.data.dtype != self.dtype):
+                div.append(("dtype", "%s:stats-dtype" % tag, "running statistics dtype %s / %s for a %s layer" % (bn.running_mean.data.dtype, bn.running_var.data.dtype, self.dtype)))
             if a == "fwd" and y is not None:
                 want = np.array([float((mp.mpf(e["x"]) - mp.mpf(e["m"][0]) / e["m"][1]) / mp.sqrt(mp.mpf(e["v"][0]) / e["v"][1] + mp.mpf(eps))
                                        * (mp.mpf(e["ga"][0]) / e["ga"][1]) + mp.mpf(e["be"][0]) / e["be"][1]) for e in obs["out"][0]])
                 got = y.data.astype(np.float64).reshape(-1)
                 if got.shape != want.shape or not np.allclose(got, want, rtol=5e-5, atol=5e-5):
                     div.append(("output", "%s:output:%s" % (tag, mode), "output %s, specification %s" % (got.tolist(), want.tolist())))
-            if len(div) > n0:
-                break
+            if a == "bwd" and obs["bwout"]:
+                rec = obs["bwout"][0]
+                xk, yk = pend[call["k"] - 1]
+                want = self.expected_input_grad(rec, eps)
+                got = xk.grad.data.astype(np.float64).reshape(-1)
+                if got.shape != want.shape or not np.allclose(got, want, rtol=2e-4, atol=2e-4):
+                    later = sum(1 for c in hist[:i] if c["a"] == "fwd") > call["k"]
+                    div.append(("input_grad", "%s:input-grad:%s:%s" % (tag, rec["mode"], "after-later-forward" if later else "direct"),
+                                "input gradient of forward #%d: %s, specification %s (history %s)" % (call["k"], got.tolist(), want.tolist(), [c["a"] for c in hist[:i + 1]])))
+            # (no early stop: each property's check picks the divergence kinds it is responsible for, and a later
+            #  symptom - e.g. a wrong output after the running statistics went wrong - must still be seen)
         return div
+
+    @staticmethod
+    def expected_input_grad(rec, eps):
+        """VJP of the forward pass described by `rec` (mode, per-element x / mean / var / gamma) for the generic
+        upstream gradient -2, 3, -4, ...; batch mode differentiates the batch statistics as well (mpmath)."""
+        from .replay_nn import fn_partials
+        el = rec["el"]
+        n = len(el)
+        g = [mp.mpf(-(j + 1) if j % 2 == 0 else (j + 1)) for j in range(1, n + 1)]
+        if rec["mode"] == "stats":
+            return np.array([float(g[i] * (mp.mpf(e["ga"][0]) / e["ga"][1]) / mp.sqrt(mp.mpf(e["v"][0]) / e["v"][1] + mp.mpf(eps))) for i, e in enumerate(el)])
+        shape = rec["shape"]
+        sp = int(np.prod(shape[2:])) if len(shape) > 2 else 1
+        C = shape[1]
+        out = np.zeros(n)
+        for c in range(C):
+            idx = [i for i in range(n) if (i // sp) % C == c]
+            vals = [mp.mpf(el[i]["x"]) for i in idx]
+            ga = mp.mpf(el[idx[0]]["ga"][0]) / el[idx[0]]["ga"][1]
+            for pos, j in enumerate(idx):
+                parts = fn_partials("bn_batch", [[pos, 1], [1, int(round(1 / eps))]], vals)
+                for q, i in enumerate(idx):
+                    out[i] += float(g[j] * ga) * parts[q][0]
+        return out
 
 
 class DropReplayer:
